@@ -51,15 +51,16 @@ decreasing_by all_goals omega
 
 def goSearchErr (n : Nat) (f : Nat → Option Bool) : Nat × Bool := goSearchErrAux f 0 n false
 
-/-- `findSegmentIndexByTimestamp`: first segment whose FIRST entry has a timestamp `> ts`; reading
+/-- `findSegmentIndexByTimestamp`: first segment whose FIRST entry has a timestamp `> ts` (`>= ts`
+when `inclusive`); reading
 the first entry of a segment without entries fails with io.EOF. -/
-def findSegIdxByTs (segs : List Seg) (ts : Int) : Nat × Bool :=
+def findSegIdxByTs (segs : List Seg) (ts : Int) (inclusive : Bool := false) : Nat × Bool :=
   goSearchErr segs.length fun i =>
     match segs[i]? with
     | none => none
     | some s => match s.recs.head? with
       | none => if Gen.Subscribe.tsEmptySegNoError then some true else none
-      | some r => some (Gen.Log.findSegmentTsCmp.evalInt r.ts ts)
+      | some r => some ((inclusive && r.ts = ts) || Gen.Log.findSegmentTsCmp.evalInt r.ts ts)
 
 /-- `findEntryByTimestamp`: first entry of the segment whose timestamp is `>= ts`. -/
 def findEntryByTs (s : Seg) (ts : Int) : Option Rec :=
@@ -73,7 +74,9 @@ def lastNextOffset (segs : List Seg) : Int := (segs.getLast?.map Seg.nextOffset)
 
 /-- `EarliestOffsetAfterTimestamp`. -/
 def earliestAfterTs (l : CLog) (ts : Int) : Res Int :=
-  let (idx, err) := findSegIdxByTs l.segs ts
+  -- the segment search is inclusive of an equal base timestamp: messages stamped exactly `ts`
+  -- may also sit at the end of the previous segment
+  let (idx, err) := findSegIdxByTs l.segs ts Gen.Subscribe.tsEarliestInclusive
   if err then .ok (lastNextOffset l.segs) else
   let seg := if idx = 0 then l.segs[0]? else l.segs[idx - 1]?
   match seg with
